@@ -137,6 +137,25 @@ def mutate(tree, path, op):
     return ast.unparse(root)
 
 
+DESELECT = []  # tests failing on the unmutated tree (pandas 3 / flaky ones): not a verdict on a mutant
+
+
+def baseline(wt, tests, base):
+    env = dict(os.environ, PYTHONPATH=wt, PYTHONDONTWRITEBYTECODE='1', TMPDIR=os.path.join(base, 'tmp'))
+    failing = set()
+    for _ in range(2):
+        r = subprocess.run(['/venv/bin/python', '-m', 'pytest', '-q', '-p', 'no:cacheprovider', '--timeout=300', '-rfE'] + tests,
+                           cwd=wt, env=env, capture_output=True, timeout=3000)
+        for line in r.stdout.decode(errors='replace').splitlines():
+            if line.startswith(('FAILED ', 'ERROR ')):
+                failing.add(line.split()[1])
+    # known flaky tests of the repository (fail intermittently on the unchanged tree)
+    failing.update(['tests/pipeline/wrap/test_actor.py::TestStateless::test_signature',
+                    'tests/provider/runner/test_dask.py::TestRunner::test_apply[distributed]',
+                    'tests/provider/runner/test_dask.py::TestRunner::test_train[distributed]'])
+    return [f'--deselect={t}' for t in sorted(failing)]
+
+
 def run_one(args):
     idx, desc, code, wt, vcopy, relfile, tests, pid, base = args
     target = os.path.join(wt, relfile)
@@ -149,7 +168,7 @@ def run_one(args):
                                cwd=wt, env=env, capture_output=True, timeout=120)
             if r.returncode != 0:
                 return idx, desc, 'stillborn'
-            r = subprocess.run(['/venv/bin/python', '-m', 'pytest', '-q', '-x', '-p', 'no:cacheprovider', '--timeout=300'] + tests,
+            r = subprocess.run(['/venv/bin/python', '-m', 'pytest', '-q', '-x', '-p', 'no:cacheprovider', '--timeout=300'] + DESELECT + tests,
                                cwd=wt, env=env, capture_output=True, timeout=1500)
         except subprocess.TimeoutExpired:
             return idx, desc, 'killed-by-tests(timeout)'
@@ -212,7 +231,13 @@ def main():
             vc = os.path.join(base, f'v{j}')
             subprocess.run(['rsync', '-a', '--exclude', '.git', '--exclude', 'seeded', here + '/', vc + '/'], check=True)
             vcs.append(vc)
-        # sanity: unparse of the unmutated tree must itself pass (formatting-only change)
+        # sanity: the unparsed but unmutated file must pass like the original (formatting-only change)
+        tests = a.tests.split(',')
+        with open(os.path.join(wts[0], a.relfile), 'w') as fh:
+            fh.write(ast.unparse(tree))
+        DESELECT.extend(baseline(wts[0], tests, base))
+        subprocess.run(['git', 'checkout', '--', a.relfile], cwd=wts[0], capture_output=True)
+        print('baseline deselects', len(DESELECT), flush=True)
         jobs = []
         for i, (desc, path, op) in enumerate(todo):
             try:
